@@ -1,4 +1,5 @@
 import TIV.C04.Fit
+import TIV.C04.SoftfloatLaws
 import TIV.C04.Generated
 /-! # C04 — property theorems -/
 namespace TIV.C04
@@ -441,5 +442,90 @@ example : Bnd .text ⟨80, 30, none, some (divNat 1 2)⟩ (1000, 300) 80 28 ∧ 
   · intro c hc; cases hc
   · have e : pixelRatio .text ⟨80, 30, none, some (divNat 1 2)⟩ = ⟨4503599627370496, -52⟩ := by rfl
     rw [e]; norm_num [F64.val, F64.num, F64.den]
+
+/-! ## the float laws are discharged, and the unconditional forms
+
+`softfloat_laws : FlLaws` is proved in `SoftfloatLaws.lean` (`fl_mono`, `fl_rel_err`,
+`fl_exact_int`, `fl_exact_half` about the concrete `SF.fl`).  The `_partial` theorems above are
+kept; each is restated here without the hypothesis. -/
+
+/-- the concrete softfloat satisfies the four laws: rounding is monotone, has relative error at
+    most 2⁻⁵³, and is exact on integers and half-integers below 2⁵³ -/
+theorem float_laws :
+    (∀ n₁ d₁ n₂ d₂ : Nat, 0 < d₁ → 0 < d₂ → (n₁ : ℚ) / d₁ ≤ (n₂ : ℚ) / d₂ → (fl n₁ d₁).val ≤ (fl n₂ d₂).val) ∧
+    (∀ n d : Nat, 0 < d → |(fl n d).val - (n : ℚ) / d| ≤ (n : ℚ) / d / 2 ^ 53) ∧
+    (∀ k : Nat, k < 2 ^ 53 → (fl k 1).val = k) ∧
+    (∀ k : Nat, k < 2 ^ 53 → (fl k 2).val = (k : ℚ) / 2) :=
+  ⟨fl_mono, fl_rel_err, fl_exact_int, fl_exact_half⟩
+
+example : (fl 7 1).val = 7 ∧ (fl 7 2).val = 7 / 2 :=
+  ⟨by simpa using fl_exact_int 7 (by norm_num), by simpa using fl_exact_half 7 (by norm_num)⟩
+
+/-- `aspect_dev_fit_partial` with `softfloat_laws` supplied: unconditional -/
+theorem aspect_dev_fit (fam : Family) (env : Env) (ori : Nat × Nat) (width height : Arg)
+    (frame : Int × Int) (w h : Nat) (hm : IsFit width height)
+    (b : Bnd fam env ori (resolve frame.1 env.cols) (resolve frame.2 env.lines))
+    (hr : validSize fam env ori width height frame = .ok (w, h)) :
+    let cols := resolve frame.1 env.cols
+    let lines := resolve frame.2 env.lines
+    (w = cols ∧ h ≤ lines ∧
+      |(h : ℚ) - ((pixelsOfCols fam env cols : Nat) : ℚ) / ori.1 * ori.2 * (pixelRatio fam env).val / lineUnit fam env| < 1) ∨
+    (h = lines ∧ w ≤ cols ∧
+      |(w : ℚ) - ((pixelsOfLines fam env lines : Nat) : ℚ) / ori.2 * ori.1 / (pixelRatio fam env).val / colUnit fam env| < 1) :=
+  aspect_dev_fit_partial softfloat_laws fam env ori width height frame w h hm b hr
+
+/-- `fit_touch_partial` with `softfloat_laws` supplied: unconditional -/
+theorem fit_touch (fam : Family) (env : Env) (ori : Nat × Nat) (width height : Arg)
+    (frame : Int × Int) (w h : Nat) (hm : IsFit width height)
+    (b : Bnd fam env ori (resolve frame.1 env.cols) (resolve frame.2 env.lines))
+    (hr : validSize fam env ori width height frame = .ok (w, h)) :
+    w = resolve frame.1 env.cols ∨ h = resolve frame.2 env.lines :=
+  fit_touch_partial softfloat_laws fam env ori width height frame w h hm b hr
+
+/-- `fit_le_partial` with `softfloat_laws` supplied: unconditional -/
+theorem fit_le (fam : Family) (env : Env) (ori : Nat × Nat) (width height : Arg)
+    (frame : Int × Int) (w h : Nat)
+    (hm : IsFit width height ∨ (width.isInt = false ∧ height.isInt = false ∧ has .auto width height = true))
+    (b : Bnd fam env ori (resolve frame.1 env.cols) (resolve frame.2 env.lines))
+    (hr : validSize fam env ori width height frame = .ok (w, h)) :
+    w ≤ resolve frame.1 env.cols ∧ h ≤ resolve frame.2 env.lines :=
+  fit_le_partial softfloat_laws fam env ori width height frame w h hm b hr
+
+/-- `aspect_dev_given_partial` with `softfloat_laws` supplied: unconditional -/
+theorem aspect_dev_given (fam : Family) (env : Env) (hwf : env.WF) (ow oh n : Nat)
+    (frame : Int × Int) (w h : Nat) (how : 1 ≤ ow) (hoh : 1 ≤ oh) (hn : 1 ≤ n)
+    (bow : ow < 2 ^ 53) (boh : oh < 2 ^ 53) (hpr : 0 < (pixelRatio fam env).val) :
+    (((pixelsOfCols fam env n : Nat) : ℚ) / ow * oh * (pixelRatio fam env).val ≤ 2 ^ 40 →
+      validSize fam env (ow, oh) (.int n) .none frame = .ok (w, h) →
+      w = n ∧ |(h : ℚ) - ((pixelsOfCols fam env n : Nat) : ℚ) / ow * oh * (pixelRatio fam env).val / lineUnit fam env| < 1) ∧
+    (((pixelsOfLines fam env n : Nat) : ℚ) / oh * ow / (pixelRatio fam env).val ≤ 2 ^ 40 →
+      validSize fam env (ow, oh) .none (.int n) frame = .ok (w, h) →
+      h = n ∧ |(w : ℚ) - ((pixelsOfLines fam env n : Nat) : ℚ) / oh * ow / (pixelRatio fam env).val / colUnit fam env| < 1) :=
+  aspect_dev_given_partial softfloat_laws fam env hwf ow oh n frame w h how hoh hn bow boh hpr
+
+/-- `aspect_dev_ftw_partial` with `softfloat_laws` supplied: unconditional -/
+theorem aspect_dev_ftw (fam : Family) (env : Env) (hwf : env.WF) (ow oh : Nat)
+    (width height : Arg) (frame : Int × Int) (w h : Nat) (how : 1 ≤ ow) (hoh : 1 ≤ oh) (boh : oh < 2 ^ 53)
+    (hpr : 0 < (pixelRatio fam env).val)
+    (hw : width.isInt = false) (hh : height.isInt = false)
+    (hauto : has .auto width height = false) (hftw : has .fitToWidth width height = true)
+    (hE : ((pixelsOfCols fam env (resolve frame.1 env.cols) : Nat) : ℚ) / ow * oh * (pixelRatio fam env).val ≤ 2 ^ 40)
+    (hr : validSize fam env (ow, oh) width height frame = .ok (w, h)) :
+    |(h : ℚ) - ((pixelsOfCols fam env (resolve frame.1 env.cols) : Nat) : ℚ) / ow * oh * (pixelRatio fam env).val
+        / lineUnit fam env| < 1 :=
+  aspect_dev_ftw_partial softfloat_laws fam env hwf ow oh width height frame w h how hoh boh hpr hw hh hauto hftw hE hr
+
+/-- `aspect_dev_original_partial` with `softfloat_laws` supplied: unconditional -/
+theorem aspect_dev_original (fam : Family) (env : Env) (hwf : env.WF) (ow oh : Nat)
+    (width height : Arg) (frame : Int × Int) (w h : Nat) (how : 1 ≤ ow) (hoh : 1 ≤ oh) (boh : oh < 2 ^ 53)
+    (hpr : 0 < (pixelRatio fam env).val)
+    (hw : width.isInt = false) (hh : height.isInt = false)
+    (hauto : has .auto width height = false) (hftw : has .fitToWidth width height = false)
+    (hori : has .original width height = true)
+    (hE : (oh : ℚ) * (pixelRatio fam env).val ≤ 2 ^ 40)
+    (hr : validSize fam env (ow, oh) width height frame = .ok (w, h)) :
+    |(w : ℚ) - (ow : ℚ) / colUnit fam env| < 1 ∧
+    |(h : ℚ) - (oh : ℚ) * (pixelRatio fam env).val / lineUnit fam env| < 1 :=
+  aspect_dev_original_partial softfloat_laws fam env hwf ow oh width height frame w h how hoh boh hpr hw hh hauto hftw hori hE hr
 
 end TIV.C04
